@@ -198,6 +198,22 @@ def f_arith(op, a, b):
     return ("f", math.nextafter(lo, -math.inf), math.nextafter(hi, math.inf), nan)
 
 
+_SCALARS = {"u8", "u16", "u32", "u64", "u128", "usize", "i8", "i16", "i32", "i64", "i128", "isize", "f32", "f64", "bool", "char"}
+_PLAIN_WRAPPERS = {"Range", "RangeInclusive", "Rev", "Option", "StepBy", "Enumerate", "Zip", "Take", "Skip"}
+
+
+def _pointer_free(ty):
+    """is `ty` (a printed type) built only from scalars, tuples, arrays and plain std wrappers of those - nothing that could hold a pointer?"""
+    if not ty or any(ch in ty for ch in "&*'?") or "dyn " in ty or "impl " in ty or "{closure" in ty:
+        return False
+    import re as _re
+    for tok in _re.findall(r"[A-Za-z_][A-Za-z0-9_:]*", ty):
+        last = tok.split("::")[-1]
+        if last not in _SCALARS and last not in _PLAIN_WRAPPERS and last not in ("std", "core", "ops", "iter", "option"):
+            return False
+    return True
+
+
 def direct_mutators(ft, key):
     """call sites one of whose arguments is itself a mutable reference to place `key` (through reborrows only);
     calls that merely receive something derived from such a reference (a slice from deref_mut) are not included"""
@@ -549,18 +565,31 @@ class Engine:
                 for f in adt["variants"][0]["fields"]:
                     seen.setdefault(f["name"], []).append((ap, f["ty"]))
             self._ufields = {n: v[0] for n, v in seen.items() if len(v) == 1 and not n.isdigit()}
+            self._afields = {(ap_, n): (ap_, ty_) for n, v in seen.items() if not n.isdigit() for ap_, ty_ in v}
             self._finv = {}
         return self._ufields
 
-    def field_invariant(self, name):
-        """abstract value of struct field `name` valid for every instance built by this crate, or None"""
+    def field_invariant(self, name, base_ty=None):
+        """abstract value of struct field `name` valid for every instance built by this crate, or None.  The struct is
+        identified by the field name when that is unique in the crate, else by the type of the value read (base_ty)"""
         uf = self.unique_fields()
-        if name not in uf:
-            return None
-        if name in self._finv:
-            return self._finv[name]
-        adt_path, fty = uf[name]
-        self._finv[name] = top_of_type(fty, self.facts)   # recursion guard
+        if name in uf:
+            adt_path, fty = uf[name]
+        else:
+            ty = (base_ty or "").strip()
+            while ty.startswith("&"):
+                ty = ty[1:].strip()
+                if ty.startswith("mut "):
+                    ty = ty[4:].strip()
+            ty = ty.split("<")[0]
+            hit = self._afields.get((self.facts.crate + "::" + ty, name)) or self._afields.get((ty, name))
+            if hit is None:
+                return None
+            adt_path, fty = hit
+        name_key = (adt_path, name)
+        if name_key in self._finv:
+            return self._finv[name_key]
+        self._finv[name_key] = top_of_type(fty, self.facts)   # recursion guard
         out = BOT
         nsites = 0
         for path, f in self.facts.fns.items():
@@ -598,7 +627,7 @@ class Engine:
                 out = join(out, c.av(t, bi))
         if nsites == 0 or out[0] in ("b", "t"):
             out = top_of_type(fty, self.facts)
-        self._finv[name] = out
+        self._finv[name_key] = out
         return out
 
     def is_constant_ctx(self, key, _seen=None):
@@ -1607,13 +1636,13 @@ class FnCtx:
             if a[0] == "s":
                 v = sget(a, t[2])
                 if v is not None:
-                    inv = self.eng.field_invariant(t[2]) if isinstance(t[2], str) and self.depth_ok() else None
+                    inv = self.eng.field_invariant(t[2], self.ft.tyof(t[1])) if isinstance(t[2], str) and self.depth_ok() else None
                     return meet(v, inv) if inv is not None and inv[0] == v[0] else v
             if a[0] == "b":
                 return BOT
             if a[0] in ("f", "i") and str(t[2]) == "0":
                 return a  # newtype wrapper flattened by the constant decoder
-            inv = self.eng.field_invariant(t[2]) if isinstance(t[2], str) else None
+            inv = self.eng.field_invariant(t[2], self.ft.tyof(t[1])) if isinstance(t[2], str) else None
             if inv is not None:
                 return inv
             return self.top_for(t)
@@ -2185,7 +2214,9 @@ class FnCtx:
             if base[0] == "agg" and base[2].startswith("std::ops::Range::") and "enumerate" not in ad:
                 la, lb = self.linear(base[3][0], None), self.linear(base[3][1], None)
                 # the bounds are evaluated before the loop: atoms in them must be loop-invariant (defined outside)
-                if la and lb and self.invariant(base, lp):
+                # (a length atom carries the version of the vector it was read from: a later resize gives a different atom)
+                if la and lb and (self.invariant(base, lp) or all(
+                        (isinstance(x_, tuple) and x_ and x_[0] == "L") or self.invariant(x_, lp) for x_ in list(la[0]) + list(lb[0]))):
                     co = {item: -1}
                     for x, c in la[0].items():
                         co[x] = co.get(x, 0) + c
@@ -2507,6 +2538,8 @@ class FnCtx:
                 hit = any(x[0] == "call" and len(x) > 3 and x[3] == (ft.path, c.block) for x in walk(a))
                 if not hit:
                     continue
+                if _pointer_free(ft.tyof(a) or "?"):
+                    continue      # a value computed from the slice (an element, its length, a range over its indices) gives the callee no way to write it
                 found = True
                 if c2.callee in self.facts.fns:
                     out = join(out, self._callee_param_stores(c2, ai, ety))
